@@ -234,89 +234,107 @@ def pushSource (src : Src) (node : Val) : Src :=
   | some (.str p) => if p == "" then src else .path p
   | _ => src
 
+/-- the recursive call `_walk(dispatcher, node, definition)` as seen from a rule -/
+abbrev WalkFn (σ : Type) := Path → Src → Val → Option (List Rule) → σ → Except Err (List Chunk × σ)
+
+/-- `_walk(dispatcher, v, token=self)` issued by a rule of `cur` (the node being interpreted):
+a Node is walked with its own definition, anything else goes to the token handler -/
+def walkValue (cfg : Cfg σ) (wn : WalkFn σ) (path : Path) (src : Src) (cur : Val)
+    (pos : Option Int) (st : Step) (v : Val) (s : σ) : Except Err (List Chunk × σ) :=
+  match v with
+  | .node _ _ => wn (st :: path) src v none s
+  | _ => (emitToken cfg pos cur src v).map (fun cs => (cs, s))
+
+def runAct (cfg : Cfg σ) (wn : WalkFn σ) (path : Path) (src : Src) (cur : Val)
+    (pos : Option Int) (sep : List Rule) (a : JAct) (s : σ) : Except Err (List Chunk × σ) :=
+  match a with
+  | .item st v => walkValue cfg wn path src cur pos st v s
+  | .sep => wn path src cur (some sep) s
+  | .esep => wn (("@sep", 0) :: path) src cfg.elisionSep none s
+
+/-- one rule of a definition applied to `node`, given the recursive walk `wn` -/
+def ruleStep (cfg : Cfg σ) (wn : WalkFn σ) (path : Path) (src : Src) (node : Val) (rule : Rule) (s : σ) :
+    Except Err (List Chunk × σ) :=
+  match rule with
+  | .layout m =>
+    match lookupLayout cfg.layout (LKey.single m) with
+    | some h => .ok ([Chunk.layout m h node], s)
+    | none => .ok ([], s)
+  | .struct m =>
+    match cfg.struct m with
+    | some f => (f path node s).map (fun s' => ([], s'))
+    | none => .ok ([], s)
+  | .text v pos => (emitToken cfg pos node src (.str v)).map (fun cs => (cs, s))
+  | .attr a pos | .commentsAttr a pos =>
+    match getSrc cfg path node a s with
+    | .error e => .error e
+    | .ok (v, s') =>
+      if isEmptyVal v then .ok ([], s')
+      else
+        let st : Step := match a with
+          | .name n => (n, 0)
+          | .declare n => (n, 0)
+          | _ => ("value", 0)
+        walkValue cfg wn path src node pos st v s'
+  | .operator a value pos =>
+    match (match a with
+           | some n => getattrVal node n
+           | none => .ok (match value with
+               | some v => Val.str v
+               | none => Val.none)) with
+    | .error e => .error e
+    | .ok v =>
+      if isEmptyVal v then .ok ([], s)
+      else walkValue cfg wn path src node pos ((a.getD "value"), 0) v s
+  | .optional a body =>
+    match getattrVal node a with
+    | .error e => .error e
+    | .ok v =>
+      if isEmptyVal v then .ok ([], s)
+      else wn path src node (some body) s
+  | .joinAttr a sep pos =>
+    match getIter cfg path node a s with
+    | .error e => .error e
+    | .ok (items, s') => seqM (runAct cfg wn path src node pos sep) (joinActs items) s'
+  | .elisionToken a value pos =>
+    match getSrc cfg path node a s with
+    | .error e => .error e
+    | .ok (v, s') =>
+      match v with
+      | .int n => (emitToken cfg pos node src (.str (strMul value n))).map (fun cs => (cs, s'))
+      | .bool b => (emitToken cfg pos node src (.str (strMul value (if b then 1 else 0)))).map (fun cs => (cs, s'))
+      | _ => .error (.typeError "can't multiply sequence by non-int")
+  | .elisionJoinAttr a sep pos =>
+    match getIter cfg path node a s with
+    | .error e => .error e
+    | .ok (items, s') =>
+      seqM (runAct cfg wn path src node pos sep) (elisionActs cfg.hd.elisionKinds items) s'
+
+/-- `_walk(dispatcher, node, definition)` for a Node, given how one rule is run -/
+def nodeStep (cfg : Cfg σ) (wr : Path → Src → Val → Rule → σ → Except Err (List Chunk × σ))
+    (path : Path) (src : Src) (node : Val) (defn : Option (List Rule)) (s : σ) :
+    Except Err (List Chunk × σ) :=
+  match node with
+  | .node kind _ =>
+    match (match defn with
+           | some d => some d
+           | none => lookupDef cfg.defs kind) with
+    | none => .error (.keyError kind)
+    | some rules => seqM (wr path (pushSource src node) node) rules s
+  | _ => .error (.unmodelled "walk of a non-node")
+
 mutual
   /-- `_walk(dispatcher, node, definition)` for a Node; `defn = none` looks the definition up -/
-  def walkNode (cfg : Cfg σ) : Nat → Path → Src → Val → Option (List Rule) → σ →
-      Except Err (List Chunk × σ)
+  def walkNode (cfg : Cfg σ) : Nat → WalkFn σ
     | 0, _, _, _, _, _ => .error .fuel
     | fuel + 1, path, src, node, defn, s =>
-      match node with
-      | .node kind _ =>
-        let src' := pushSource src node
-        match (match defn with
-               | some d => some d
-               | none => lookupDef cfg.defs kind) with
-        | none => .error (.keyError kind)
-        | some rules => seqM (walkRule cfg fuel path src' node) rules s
-      | _ => .error (.unmodelled "walk of a non-node")
+      nodeStep cfg (fun p sr n r s => walkRule cfg fuel p sr n r s) path src node defn s
 
   /-- one rule of a definition applied to `node`: `rule(_walk, dispatcher, node)` -/
   def walkRule (cfg : Cfg σ) : Nat → Path → Src → Val → Rule → σ → Except Err (List Chunk × σ)
     | 0, _, _, _, _, _ => .error .fuel
     | fuel + 1, path, src, node, rule, s =>
-      -- `_walk(dispatcher, v, token=self)`
-      let walkValue (pos : Option Int) (st : Step) (v : Val) (s : σ) : Except Err (List Chunk × σ) :=
-        match v with
-        | .node _ _ => walkNode cfg fuel (st :: path) src v none s
-        | _ => (emitToken cfg pos node src v).map (fun cs => (cs, s))
-      let runActs (pos : Option Int) (sep : List Rule) (acts : List JAct) (s : σ) :=
-        seqM (fun (a : JAct) (s : σ) => match a with
-          | .item st v => walkValue pos st v s
-          | .sep => walkNode cfg fuel path src node (some sep) s
-          | .esep => walkNode cfg fuel (("@sep", 0) :: path) src cfg.elisionSep none s) acts s
-      match rule with
-      | .layout m =>
-        match lookupLayout cfg.layout (LKey.single m) with
-        | some h => .ok ([Chunk.layout m h node], s)
-        | none => .ok ([], s)
-      | .struct m =>
-        match cfg.struct m with
-        | some f => (f path node s).map (fun s' => ([], s'))
-        | none => .ok ([], s)
-      | .text v pos => (emitToken cfg pos node src (.str v)).map (fun cs => (cs, s))
-      | .attr a pos | .commentsAttr a pos =>
-        match getSrc cfg path node a s with
-        | .error e => .error e
-        | .ok (v, s') =>
-          if isEmptyVal v then .ok ([], s')
-          else
-            let st : Step := match a with
-              | .name n => (n, 0)
-              | .declare n => (n, 0)
-              | _ => ("value", 0)
-            walkValue pos st v s'
-      | .operator a value pos =>
-        match (match a with
-               | some n => getattrVal node n
-               | none => .ok (match value with
-                   | some v => Val.str v
-                   | none => Val.none)) with
-        | .error e => .error e
-        | .ok v =>
-          if isEmptyVal v then .ok ([], s)
-          else walkValue pos ((a.getD "value"), 0) v s
-      | .optional a body =>
-        match getattrVal node a with
-        | .error e => .error e
-        | .ok v =>
-          if isEmptyVal v then .ok ([], s)
-          else walkNode cfg fuel path src node (some body) s
-      | .joinAttr a sep pos =>
-        match getIter cfg path node a s with
-        | .error e => .error e
-        | .ok (items, s') => runActs pos sep (joinActs items) s'
-      | .elisionToken a value pos =>
-        match getSrc cfg path node a s with
-        | .error e => .error e
-        | .ok (v, s') =>
-          match v with
-          | .int n => (emitToken cfg pos node src (.str (strMul value n))).map (fun cs => (cs, s'))
-          | .bool b => (emitToken cfg pos node src (.str (strMul value (if b then 1 else 0)))).map (fun cs => (cs, s'))
-          | _ => .error (.typeError "can't multiply sequence by non-int")
-      | .elisionJoinAttr a sep pos =>
-        match getIter cfg path node a s with
-        | .error e => .error e
-        | .ok (items, s') => runActs pos sep (elisionActs cfg.hd.elisionKinds items) s'
+      ruleStep cfg (fun p sr n d s => walkNode cfg fuel p sr n d s) path src node rule s
 end
 
 /-! ### process_layouts -/
@@ -370,19 +388,19 @@ def lastText (fs : List Frag) (prev : Option String) : Option String :=
 
 /-- second pass -/
 def runEntries (hd : HData) (indentStr : Option String) (before after : Option String) :
-    List LEntry → Option String → Level → List Frag × Level
+    List LEntry → Option String → Int → List Frag × Int
   | [], _, lvl => ([], lvl)
   | e :: es, prev, lvl =>
     let r := runHandler hd indentStr e.handler e.node before after prev lvl
     let r2 := runEntries hd indentStr before after es (lastText r.1 prev) r.2
     (r.1 ++ r2.1, r2.2)
 
-def processLayouts (cfg : Cfg σ) (buf : List LChunk) (before after : Option String) (lvl : Level) :
-    List Frag × Level :=
+def processLayouts (cfg : Cfg σ) (buf : List LChunk) (before after : Option String) (lvl : Int) :
+    List Frag × Int :=
   runEntries cfg.hd cfg.indentStr before after (normalize cfg.layout buf) none lvl
 
 /-- the top-level `walk()` loop: `last` = text of `last_chunk`, `buf` = `layout_rule_chunks` -/
-def flushAll (cfg : Cfg σ) : List Chunk → Option String → List LChunk → Level → List Frag × Level
+def flushAll (cfg : Cfg σ) : List Chunk → Option String → List LChunk → Int → List Frag × Int
   | [], last, buf, lvl => processLayouts cfg buf last none lvl
   | .layout m h n :: cs, last, buf, lvl => flushAll cfg cs last (buf ++ [{ m := m, handler := h, node := n }]) lvl
   | .frag f :: cs, last, buf, lvl =>
@@ -429,7 +447,7 @@ def walkChunks (cfg : Cfg σ) (tree : Val) (s : σ) : Except Err (List Chunk × 
   walkNode cfg (fuelFor cfg tree) [] .notImpl tree none s
 
 /-- `list(walk(dispatcher, tree))`: the fragment stream (and the final Indentator level) -/
-def unparseWith (cfg : Cfg σ) (tree : Val) (s : σ) : Except Err (List Frag × Level) :=
+def unparseWith (cfg : Cfg σ) (tree : Val) (s : σ) : Except Err (List Frag × Int) :=
   match walkChunks cfg tree s with
   | .error e => .error e
   | .ok (chunks, _) => .ok (flushAll cfg chunks none [] 0)
